@@ -11,9 +11,11 @@ import (
 
 	"cuelang.org/go/cue"
 	"cuelang.org/go/cue/ast"
+	"cuelang.org/go/cue/ast/astutil"
 	"cuelang.org/go/cue/cuecontext"
 	"cuelang.org/go/cue/format"
 	"cuelang.org/go/cue/parser"
+	"cuelang.org/go/cue/token"
 	"cuelang.org/go/internal/verifharness/common"
 )
 
@@ -318,18 +320,46 @@ func runProfile(x cue.Value, orig *CNode, pr profile, suspect bool) caseOut {
 	return co
 }
 
-// spliceEmbeddedLiterals replaces every embedded plain struct literal {A} inside a struct literal
-// by its declarations A (recursively); returns the number of splices.
+// spliceEmbeddedLiterals normalises embeddings into unification (the same value by the spec):
+// every embedded plain struct literal {A} inside a struct literal is replaced by its declarations
+// A, and every embedded scalar expression S of {S, decls} is lifted out: (S & {decls}).
+// Returns the number of rewrites.
+func isScalarExpr(e ast.Expr) bool {
+	switch x := e.(type) {
+	case *ast.BasicLit, *ast.BottomLit:
+		return true
+	case *ast.Ident:
+		switch x.Name {
+		case "_", "int", "string", "bool", "null", "true", "false", "uint", "number", "float", "bytes":
+			return true
+		}
+		_, ok := predeclRanges[x.Name]
+		return ok
+	case *ast.UnaryExpr:
+		return isScalarExpr(x.X)
+	case *ast.ParenExpr:
+		return isScalarExpr(x.X)
+	case *ast.BinaryExpr:
+		return x.Op == token.AND && isScalarExpr(x.X) && isScalarExpr(x.Y)
+	}
+	return false
+}
+
 func spliceEmbeddedLiterals(e ast.Expr) (ast.Expr, int) {
 	n := 0
-	var fix func(elts []ast.Decl) []ast.Decl
-	fix = func(elts []ast.Decl) []ast.Decl {
+	var fix func(elts []ast.Decl, lifted *[]ast.Expr) []ast.Decl
+	fix = func(elts []ast.Decl, lifted *[]ast.Expr) []ast.Decl {
 		var out []ast.Decl
 		for _, d := range elts {
 			if em, ok := d.(*ast.EmbedDecl); ok {
 				if st, ok := em.Expr.(*ast.StructLit); ok {
 					n++
-					out = append(out, fix(st.Elts)...)
+					out = append(out, fix(st.Elts, lifted)...)
+					continue
+				}
+				if isScalarExpr(em.Expr) {
+					n++
+					*lifted = append(*lifted, em.Expr)
 					continue
 				}
 			}
@@ -337,13 +367,20 @@ func spliceEmbeddedLiterals(e ast.Expr) (ast.Expr, int) {
 		}
 		return out
 	}
-	ast.Walk(e, func(m ast.Node) bool {
-		if st, ok := m.(*ast.StructLit); ok {
-			st.Elts = fix(st.Elts)
+	res := astutil.Apply(e, nil, func(c astutil.Cursor) bool {
+		if st, ok := c.Node().(*ast.StructLit); ok {
+			var lifted []ast.Expr
+			st.Elts = fix(st.Elts, &lifted)
+			if len(lifted) > 0 {
+				c.Replace(&ast.ParenExpr{X: ast.NewBinExpr(token.AND, append(lifted, st)...)})
+			}
 		}
 		return true
-	}, nil)
-	return e, n
+	})
+	if r, ok := res.(ast.Expr); ok {
+		return r, n
+	}
+	return e, 0
 }
 
 func (co caseOut) implLine() string {
